@@ -16,12 +16,19 @@ CONFIG = {
         "descriptor sets are linked through FileDescriptorSet -> protodesc.NewFiles, so option extension values are the generated Go types (the entry point structure.APIFromImage uses)",
     ],
     "mult_search": 3,
-    "refuted": [],
-    "partial": [],
+    "refuted": [
+        "C18_split_name_collision_refuted: ~ C18_full_statement (enum and message with the same split name: Panic in buildEnumFieldSchema; known finding)",
+        "C18_struct_codec_refuted: wf_total set that reflects consistently but codec_classes = (0,1) (google.protobuf.Struct; known finding)",
+        "C18_flatten_names_refuted: client properties with a duplicate name after flattening (known finding)",
+    ],
+    "partial": [
+        "C18_reflect_total / C18_cache_schema_total: totality for all descriptor sets satisfying wf_total (enums non-empty; enum split names apart from message / oneof split names)",
+        "consistency (set_consistent) and codec usability (codec_classes) are executable predicates compared with the real reader / codec on every case; they are not yet theorems over all descriptor sets",
+    ],
 }
 
 MANIFEST = {
     "text": "Theorems over a Gallina model of the proto-to-J5 schema reader (SchemaSetFromFiles / SchemaCache.Schema with placeholder recursion, all of buildScalarType / buildFromStringProto / wktSchema / buildEnum / messageProperties incl. exposed oneofs, checkFlattenCycle, ClientProperties, newPropSet / buildProperty), for all abstract proto3 descriptor sets with arbitrary annotation trees.",
-    "note": "Trusted: Coq kernel; translator; correspondence harness and descriptor dump. See level_note in evidence.",
+    "note": "Proved for all descriptor sets with non-empty enums and no enum/message split-name collision: the reader (incl. SchemaCache over any call history) never panics and never exhausts fuel |messages|+1. Partial: names-unique / paths-resolve / codec-usable are checked per case against the real code (model predicates), not proved for all inputs; three refutation witnesses of the full statement are proved (name collision, Struct, flatten name clash) and listed as known findings. Entry point with dynamicpb extension values is outside the property (observation only). Trusted: Coq kernel; translator; harness and descriptor dump.",
     "technique": "Rocq/Coq proof (invariant over the placeholder recursion) + regenerated switch-arm tables + in-Coq differential correspondence on generated descriptor sets in crash-isolated workers",
 }
